@@ -496,6 +496,18 @@ def arch_hostile_h(ctx, families=None, mean_units=None):
     return MolAst([s], arch="hostile_h")
 
 
+def arch_deadend(ctx, families=None, mean_units=None):
+    """valid notation whose generation dead-ends for some random streams: a low-weight side descriptor that only an end group matches and that
+    carries no transition list -- when growth happens to pick it, no repeat unit fits and generation raises; other streams complete"""
+    r = ctx.rng
+    sid = r.choice([i for i in (2, 4, 6, 9) if i != ctx.base_id])
+    u = ctx.unit([ctx.lt(), D("<", sid, r.choice([0.05, 0.2, 0.5])), ctx.gt()])
+    units = [u, ctx.unit([ctx.lt(), ctx.gt()])]
+    ends = [ctx.end(D(">", sid), multi=False), ctx.end(ctx.lt()), ctx.end(ctx.gt())]
+    s = StochAst(D(""), D(""), units, ends, _dist_for(ctx, units, mean_units or 3, families=families))
+    return MolAst([s], arch="deadend")
+
+
 def arch_lists(ctx, families=None, mean_units=None):
     """(10) explicit transition lists (optionally addressing end groups)"""
     from .ref.compat import compat
